@@ -1,7 +1,7 @@
 from props import TB_COMMON
 ENTRY = dict(
     level="proof",
-    level_text=("ENGINE LEVEL (Props/EngineSteps, any program / state / configuration): an arrival at a parallel gateway that still misses an incoming token is held (nothing continues, nothing observed: par_step_holds); the arrival that completes the set clears the record and sends out exactly one token per outgoing flow (par_step_releases_all, from distribute_partition); lifted to arrival SEQUENCES of any length, in any order, by tokens of any identity: par_join_waits (fewer arrivals than incoming flows: nothing continues, nothing observed, the record is the arrivals in order) and par_join_fires (the completing arrival: one token per outgoing flow, record empty again — ready for the next activation). KERNEL: Lean 4 theorems for every number of waiting tokens, outgoing flows, arrival sequence and number of "
+    level_text=("TRANSLATED KERNEL (Props/C03Current): gateway.go distributeFlows is translated into Lean statement by statement on every run (extract/facts_c03.go -> Gen/C03.replyGen) and proved equal, for every number of waiting tokens, outgoing flows and loop index, to the kernel Gateway.reply the theorems below are about (reply_is_source); every flow handed out is marked unconditional (all_handed_flows_unconditional). ENGINE LEVEL (Props/EngineSteps, any program / state / configuration): an arrival at a parallel gateway that still misses an incoming token is held (nothing continues, nothing observed: par_step_holds); the arrival that completes the set clears the record and sends out exactly one token per outgoing flow (par_step_releases_all, from distribute_partition); lifted to arrival SEQUENCES of any length, in any order, by tokens of any identity: par_join_waits (fewer arrivals than incoming flows: nothing continues, nothing observed, the record is the arrivals in order) and par_join_fires (the completing arrival: one token per outgoing flow, record empty again — ready for the next activation). KERNEL: Lean 4 theorems for every number of waiting tokens, outgoing flows, arrival sequence and number of "
                 "activations: distribute hands every outgoing flow to exactly one waiting token (the concatenation of the "
                 "slices is 0..M-1), consumes exactly N-M surplus tokens, and the gateway actor releases nothing before the "
                 "N-th arrival, releases on it, and returns to its initial state (k releases after k*N+r arrivals). Tied to "
@@ -11,7 +11,7 @@ ENTRY = dict(
                 "message handling of the gateway's run loop; hypothesis stated in the theorems: the arrivals of one activation "
                 "are N tokens (the code counts tokens, not incoming flows)"),
     technique="Lean 4 proof (induction over arrivals) + exhaustive differential against the real gateway",
-    lean_modules=["Bpmn.Props.EngineSteps", "Bpmn.Props.C03", "Bpmn.Props.EngineCurrent"],
+    lean_modules=["Bpmn.Props.C03Current", "Bpmn.Props.EngineSteps", "Bpmn.Props.C03", "Bpmn.Props.EngineCurrent"],
     harness_files=["c01patient.go"],
     families=["c03fn", "c03", "c03burst", "c03two", "c01patient"],
     exhaustive=True,
